@@ -95,6 +95,32 @@ func genPairScenarios(tier string) []*Scenario {
 			out = append(out, &Scenario{ID: id, Prop: "C05", Seed: seed, Threads: [][][]string{{c("BLPOP", k, "1")}, {c("@sleep", "100"), m}}, Atomic: true, Gen: true, Timed: true})
 		}
 	}
+	// (the partner key kk lives in another shard: two keys in one shard map would make KEYS visit them
+	// in Go's random map order, and with it the order of its lazy-expiry lock operations)
+	kk := "@k2"
+	// commands against a key whose deadline has passed while its reaper timer has not run yet: the
+	// timer goroutine is a third thread, so every placement of the reaping relative to the two
+	// commands is explored.  All instants are well past the deadline: the key is logically gone.
+	for _, sd := range []struct {
+		n string
+		s [][]string
+	}{
+		{"string", [][]string{c("SET", k, "5", "EX", "1"), c("RPUSH", kk, "r"), c("@advance", "2500")}},
+		{"list", [][]string{c("RPUSH", k, "a"), c("EXPIRE", k, "1"), c("SET", kk, "s"), c("@advance", "2500")}},
+	} {
+		ops := [][]string{c("GET", k), c("SET", k, "w"), c("SETNX", k, "n"), c("APPEND", k, "x"), c("INCR", k), c("EXISTS", k), c("TTL", k), c("TYPE", k), c("DEL", k), c("EXPIRE", k, "100"), c("PERSIST", k),
+			c("RENAME", k, kk), c("RENAME", kk, k), c("LPUSH", k, "x"), c("LPUSHX", k, "y"), c("LLEN", k), c("LPOP", k), c("KEYS", "*"), c("SET", k, "w", "KEEPTTL"), c("SADD", k, "m")}
+		for i := 0; i < len(ops); i++ {
+			for j := i; j < len(ops); j++ {
+				a, b := ops[i], ops[j]
+				if (a[0] == "KEYS" && b[0] == "RENAME") || (a[0] == "RENAME" && b[0] == "KEYS") {
+					continue // KEYS is not claimed atomic against a command that moves a key between shards
+				}
+				id := "pair:expired:" + sd.n + ":" + strings.Join(a, " ") + " | " + strings.Join(b, " ")
+				out = append(out, &Scenario{ID: id, Prop: "C05", Seed: sd.s, Threads: [][][]string{{a}, {b}}, Atomic: true, Gen: true, Timed: true})
+			}
+		}
+	}
 	return out
 }
 
